@@ -334,9 +334,22 @@ package tlog
 //@ spec macro INJ(tiles []Tile, tileOrder map[Tile]int) bool =
 //@     forall j int {tiles[j]} :: 0 <= j && j < len(tiles) ==> has(tileOrder, tiles[j]) && tileOrder[tiles[j]] == j
 
+//@ # the documented path of tile coordinates: N in groups of three digits, the leading groups as directories "xNNN/"
+//@ # (123456789 is x123/x456/789); ".p/W" for a partial tile; "data" for level -1
+//@ spec func NHIGH(n int) string decreases n =
+//@     if n < 1000 then "" else NHIGH(n / 1000) + ("x" + PAD3((n / 1000) % 1000) + "/")
+//@ spec func TPATH(t Tile) string =
+//@     "tile/" + DECS(t.H) + "/" + (if t.L == 0 - 1 then "data" else DECS(t.L)) + "/" + (NHIGH(t.N) + PAD3(t.N % 1000))
+//@     + (if t.W != pow2(t.H) then ".p/" + DECS(t.W) else "")
 //@ func Tile.Path
 //@   pure
-//@   trusted "string formatting of tile coordinates (fmt); used only in error messages here"
+//@   noovf
+//@   # (for tile coordinates in their documented ranges; Path is total, what it prints outside them is not specified)
+//@   ensures [C10] documented_path: t.N >= 0 && t.H >= 0 && t.H <= 62 ==> result == TPATH(t)
+//@   loop 0:
+//@     invariant t.N >= 0 ==> 0 <= n && n <= t.N && NHIGH(t.N) + PAD3(t.N % 1000) == NHIGH(n) + nStr
+//@     decreases n
+//@   uses cat_assoc
 //@   props C10
 
 //@ func (*tileHashReader).ReadHashes
@@ -785,10 +798,59 @@ package tlog
 //@   hint occurs(t + "\n", "\n\n", len(t) - 1)
 //@   hint occurs(t + "\n", "\n\n", strings.Index(t + "\n", "\n\n"))
 //@   props C09
+//@ # no newline in d (a predicate symbol, so that lemmas can take it as a premise)
+//@ spec opaque func NONL(d string) bool = forall k int {d[k]} :: 0 <= k && k < len(d) ==> d[k] != 10
+//@ lemma decs_nonl(n int)
+//@   requires 0 - 9223372036854775808 <= n && n <= 9223372036854775807
+//@   ensures NONL(DECS(n))
+//@   uses dec_parse
+//@   trigger NONL(DECS(n))
+//@   props C09
+//@ # the three parts of a formatted record, as ParseRecord cuts them
+//@ lemma rec_id_part(d string, t string)
+//@   requires len(d) + len(t) < 4611686018427387000 && NONL(d)
+//@   ensures RECI(d + "\n" + t + "\n") == len(d)
+//@   ensures (d + "\n" + t + "\n")[:RECI(d + "\n" + t + "\n")] == d
+//@   ensures (d + "\n" + t + "\n")[RECI(d + "\n" + t + "\n")+1:] == t + "\n"
+//@   uses rec_first_newline cat_prefix cat_assoc
+//@   hint (d + "\n") + (t + "\n")
+//@   hint d + ("\n" + (t + "\n"))
+//@   trigger d + "\n" + t + "\n"
+//@   props C09
+//@ lemma rec_text_part(t string)
+//@   requires len(t) < 4611686018427387000 && RECTEXT(t)
+//@   ensures strings.Index(t + "\n", "\n\n") == len(t) - 1
+//@   ensures (t + "\n")[:len(t)] == t && (t + "\n")[len(t)+1:] == ""
+//@   uses rec_first_blank cat_prefix
+//@   trigger strings.Index(t + "\n", "\n\n")
+//@   props C09
+//@ lemma rec_rest_part(d string, t string)
+//@   requires len(d) + len(t) < 4611686018427387000 && NONL(d) && RECTEXT(t)
+//@   ensures RECJ(d + "\n" + t + "\n") == len(t) - 1
+//@   ensures (d + "\n" + t + "\n")[RECI(d + "\n" + t + "\n")+1:][:RECJ(d + "\n" + t + "\n")+1] == t
+//@   ensures (d + "\n" + t + "\n")[RECI(d + "\n" + t + "\n")+1:][RECJ(d + "\n" + t + "\n")+2:] == ""
+//@   uses rec_id_part rec_text_part
+//@   hint strings.Index(t + "\n", "\n\n")
+//@   hint RECJ(d + "\n" + t + "\n")
+//@   trigger d + "\n" + t + "\n"
+//@   props C09
 //@ # records survive their text encoding: what FormatRecord produces for (id, t) is decoded by ParseRecord as exactly
 //@ # (id, t) with nothing left over
 //@ lemma record_roundtrip(id int, t string)
-//@   requires 0 - 9223372036854775808 <= id && id <= 9223372036854775807 && len(t) < 4611686018427387000 && RECTEXT(t)
+//@   requires 0 - 9223372036854775808 <= id && id <= 9223372036854775807 && len(t) < 4611686018427386000 && RECTEXT(t)
 //@   ensures PARSEDREC(DECS(id) + "\n" + t + "\n", id, t, "")
-//@   uses dec_parse rec_first_newline rec_first_blank cat_prefix cat_assoc
+//@   uses dec_parse decs_nonl rec_id_part rec_rest_part
+//@   hint NONL(DECS(id))
 //@   props C09
+
+//@ # a parsed tile path denotes coordinates in their documented ranges and is exactly what Path prints for them
+//@ func ParseTilePath
+//@   noovf
+//@   allocates
+//@   modifies []string
+//@   ensures [C10] parsed_tile_in_range: result1 == nil ==> 1 <= result0.H && result0.H <= 30 && result0.L >= 0 - 1 && 1 <= result0.W && result0.W <= pow2(result0.H)
+//@   ensures [C10] parsed_path_is_canonical: result1 == nil ==> result0.Path() == path
+//@   loop 0:
+//@     invariant 0 - 1 <= @idx && @idx < len(f)
+//@     decreases len(f) - @idx
+//@   props C10
